@@ -80,6 +80,7 @@ fn main() {
         return;
     }
     let t0 = std::time::Instant::now();
+    worker::install_panic_hook();
     let report = match props::dispatch(&args) {
         Some(r) => r,
         None => {
